@@ -155,13 +155,14 @@ def same_ast(a, b):
 # ---------------------------------------------------------------------------
 # forward must-dataflow over a CFG
 
-def forward(cfg, init, transfer, join, avoid_edges=()):
+def forward(cfg, init, transfer, join, avoid_edges=(), start=None):
     """Generic forward dataflow.  transfer(node, state, label) -> state for the
     out-edge `label`; join(list of states) -> state.  States must be comparable
     (==).  Returns IN state per node (None = unreachable)."""
     IN = {n: None for n in cfg.live}
-    IN[cfg.entry] = init
-    work = [cfg.entry]
+    start = start or cfg.entry
+    IN[start] = init
+    work = [start]
     iters = 0
     while work:
         iters += 1
